@@ -95,6 +95,12 @@ def check(run):
         one_case(run, specs, "momentum", T)
         one_case(run, specs, "angmom", T)
         run.count("transform " + lab)
+    from checks.common import custom_order_family
+    for k in range(2 if run.tier == "quick" else 8):
+        sp_ = custom_order_family(rng, (2, 1) if k % 2 else (1, 3))
+        one_case(run, sp_, "momentum")
+        one_case(run, sp_, "angmom")
+        run.count("declared (non-default) Cartesian component order")
     for _ in range(3 if run.tier == "quick" else 20):
         specs = random_basis(rng, 1, 3, lmax=3)
         t = random_transform(rng, sum(x.size for x in specs))
